@@ -137,6 +137,13 @@ def check_etcd(prop, tier, seed):
             cov["traces_validated_against_impl"] += ntr
             if v:
                 violations += known_or_violation(prop, seed, v)
+        if not violations:
+            # "... a prefix watch emits PUT and DELETE events with the previous key-value on deletes"; "one response per batch, header = last
+            # event revision": the watch stream as a component, several watches on one stream (WatchMux.tla / TraceWatchMux.tla)
+            import fam_watch
+            violations += fam_watch.mux_part(work, binp, cov, quick, seed, prop,
+                                             ["M_MuxCreatedFresh", "M_MuxEventsKnownWatch", "M_MuxEventsMatch", "M_MuxOrderedOnce", "M_MuxHeaderIsLastEvent",
+                                              "M_MuxDeleteCarriesPrevious", "M_MuxCancelAnswered"])
         cov["rule"] = ("(a) (transaction, store) pairs of the bounded space of Etcd.tla, sampled evenly over transaction structures, sent to the real Txn "
                        "handler over a seeded store; (b) TLC-generated histories of the Kubernetes transaction shapes issued through the real etcd Txn / Range / "
                        "Watch handlers on four engines with read sweeps; every case is distinct")
@@ -394,6 +401,11 @@ def check_requests(prop, tier, seed):
         if v:
             violations += 1
             report_violation(prop, seed, v)
+        if not violations:
+            # "... keeps serving": the watch handler returns when its client goes and leaves no subscription behind, whatever was
+            # cancelled or failed on the stream before (WatchMux.tla / TraceWatchMux.tla)
+            import fam_watch
+            violations += fam_watch.mux_part(work, binp, cov, quick, seed, prop, ["M_MuxCreatedFresh", "M_MuxCancelAnswered", "M_MuxHandlerReturns", "M_MuxNoSubscriptionLeft"])
         cov["rule"] = ("every request of the abstract space of Requests.tla (17 handlers of both APIs; field classes: empty / normal / 0xff / low bytes / '$' keys, "
                        "empty / normal / marker values, zero / past / current / future / negative / magic revisions, range ends, limits, transaction shapes incl. "
                        "unsupported and nested ones, missing fields), instantiated and sent in a seed-dependent order to ONE long-lived node per engine running with the "
